@@ -32,6 +32,8 @@ def run(cx):
     r4(cx)
     r5(cx)
     cx.rule("C16.R6", "K2", "Context::dispatch_act opens the act it is given: every Ok return of a call on a started task lies behind create_task + push of exactly that act (no \"already there\" shortcut: a hook act still open from the last firing is no reason to drop this firing)")
+    cx.rule("C16.R7", "E3", "each group sees its OWN index and value: Task::options (read by the act's message and by the block package that copies the options onto the acts it generates) is the options of the task's own node - nothing of another task is merged in")
+    r7_own_options(cx)
     r6_dispatch_creates(cx)
 
 
@@ -375,3 +377,28 @@ def r6_dispatch_creates(cx):
         exact_guards(cx, "C16.R6", "dispatch_act:unconditional", f, ps[0].b, required=[r"^TaskState::is_none=False$"], allowed=[r"^match\(.*branch.*\)=Continue$", r"^var:is_hook_event="],
                      what="the act is opened whenever the dispatching task has started - whatever else the process contains", loc=ps[0].loc)
     cx.floor("C16.R6", 2)
+
+
+def r7_own_options(cx):
+    m = cx.m
+    pa = Prov(m, "alias")
+    pv = Prov(m, "value")
+    f = m.one(r"^acts::scheduler::process::task::Task::options$")
+    others = [short_name(c.q) for c in f.calls() if re.search(r"Task::(parent|children|siblings|prev|find|vars|data)$|Process::|Vars::(extend|insert|set|with|append)$|Map::<.*>::(insert|extend|append)$", c.q)]
+    rets = []
+    for bi, b in enumerate(f.blocks):
+        for s_ in b["s"]:
+            if s_[0] == "A" and s_[1][0] == 0 and not s_[1][1] and s_[2][0] == "use":
+                rets.append(pv.root(f, s_[2][1]))
+        t = b["t"]
+        if t[0] == "call" and t[3][0] == 0 and not t[3][1]:
+            rets.append(("call", t[1].get("q") or "", bi, ()))
+    own = bool(rets) and all(r[0] == "call" and r[1].endswith("NodeContent::options") for r in rets)
+    if own:
+        for r in rets:
+            recv = pa.root(f, Call(f, r[2]).args[0])
+            via_accessor = recv[0] == "call" and recv[1].endswith("Task::node") and pa.root(f, Call(f, recv[2]).args[0])[:2] == ("param", 1)
+            own = own and ((recv[0] == "param" and recv[1] == 1 and "node" in recv[3]) or via_accessor)
+    cx.ob("C16.R7", "options:own-node", own and not others,
+          "Task::options returns `self.node.content.options()` and nothing else (returned: %s; other reads / merges: %s)" % ([root_str(r) for r in rets], others or "none"), f.loc())
+    cx.floor("C16.R7", 1)
